@@ -421,6 +421,64 @@ func (r *Recording) checkState(dir string, files map[string][]byte, lo, hi int, 
 	if len(res.Viols) > 0 {
 		return res
 	}
+	// 5. a second torn tail in a segment that was repaired before (its .broken copy is still lying there): one more
+	// large record is appended and a whole sector in its middle is lost; that must again be a repairable torn tail,
+	// and what was there before it must come back.
+	if res.Repaired && !toCut {
+		sr := openRead(dir, start, true)
+		if sr.w != nil && sr.err == nil {
+			w = sr.w
+			before := append([]LRec{}, extra...)
+			err := appendOne(1700)
+			_ = w.Close()
+			ns := finalNames()
+			if err == nil && len(ns) > 0 {
+				tailPath := filepath.Join(dir, ns[len(ns)-1])
+				if b, rerr := os.ReadFile(tailPath); rerr == nil {
+					end := len(b)
+					for end > 0 && b[end-1] == 0 {
+						end--
+					}
+					s0 := ((end - 900) / SectorSize) * SectorSize
+					if s0 > 0 && s0+SectorSize < end {
+						for i := s0; i < s0+SectorSize; i++ {
+							b[i] = 0
+						}
+						_ = os.WriteFile(tailPath, b, 0o600)
+						tr := openRead(dir, start, true)
+						if tr.w != nil {
+							_ = tr.w.Close()
+						}
+						res.Notes = append(res.Notes, "second-torn-tail")
+						if tr.err == io.ErrUnexpectedEOF {
+							ok, pm := safeRepair(dir)
+							if pm != "" || !ok {
+								viol("second-tear", "not-repairable", pm, fmt.Sprintf("the segment was repaired once, %d more saves completed, then a sector in the middle of the last record was lost: ReadAll reports a torn tail and Repair returns %v %s", len(extra)/2, ok, pm))
+								last().Accepted = "a torn final record is repairable, also the second time in one segment"
+								return res
+							}
+							rr := openRead(dir, start, true)
+							if rr.w != nil {
+								_ = rr.w.Close()
+							}
+							if rr.err != nil {
+								viol("second-tear", "unreadable-after-second-repair:"+normErr(rr.err.Error()), rr.err.Error(), "after the second repair: "+rr.err.Error())
+								return res
+							}
+							if m, _ := r.matchN(ns, start, n, n, before, rr.md, rr.st, rr.ents); m < 0 {
+								if m2, _ := r.matchN(ns, start, n, n, extra, rr.md, rr.st, rr.ents); m2 < 0 {
+									viol("second-tear", "data-mismatch-after-second-repair", "", "after the second repair: "+summarize(rr.md, rr.st, rr.ents, nil))
+									return res
+								}
+							}
+						}
+					}
+				}
+			}
+		} else if sr.w != nil {
+			_ = sr.w.Close()
+		}
+	}
 	if res.Repaired {
 		res.Outcome = "repaired-ok"
 	} else {
